@@ -172,6 +172,9 @@ class EngineA:
         order = weighted(sw, [(1, 1), (2, 4), (3, 4), (4, 1)])
         shape = [sw.randint(1, 4) for _ in range(order)]
         pattern = weighted(sw, [("empty", 2), ("full", 1), ("random", 5), ("single", 1)])
+        if sw.random() < 0.04:
+            shape = []  # a tensor constructed without arguments: everything comes from growth
+            pattern = "empty"
         positions = list(itertools.product(*[range(s) for s in shape]))
         if pattern == "empty":
             nz = []
@@ -240,6 +243,9 @@ class EngineA:
         m = Model(shape)
         for p, v in zip(cfg["subs"], cfg["vals"]):
             m.set(p, v)
+        if len(shape) == 0:
+            world = {"m": m, "D": ttb.tensor(), "S": ttb.sptensor(), "lastop": "init"}
+            return world
         dense = ttb.tensor(np.asfortranarray(m.dense()), copy=True)
         if len(cfg["subs"]):
             subs = np.array(cfg["subs"], dtype=int).reshape(len(cfg["subs"]), len(shape))
@@ -360,6 +366,13 @@ class EngineA:
 
     def _gen_step_once(self, w, cfg, g, counter):
         m: Model = w["m"]
+        if m.order == 0:
+            # only growth out of nothing is meaningful
+            n_new = g.randint(1, 3)
+            if g.random() < 0.5:
+                return {"op": "w_full", "key": enc([g.randint(0, 2) for _ in range(n_new)]), "val": self._next_val(counter)}
+            rows = sorted({tuple(g.randint(0, 2) for _ in range(n_new)) for _ in range(g.randint(1, 3))})
+            return {"op": "w_subs", "subs": [list(r) for r in rows], "vals": self._gen_vals(len(rows), g, cfg, counter)}
         if m.size() == 0:
             return None
         if g.random() < cfg["p_bad"]:
@@ -547,6 +560,10 @@ class EngineA:
     def _check_state(self, w, i, op) -> Optional[Violation]:
         m: Model = w["m"]
         D, S = w["D"], w["S"]
+        if m.order == 0:
+            if tuple(D.shape) != () or D.data.size != 0 or tuple(S.shape) != () or np.asarray(S.vals).size != 0:
+                return self._viol("dense_state_equals_model", op, i, f"empty tensors changed without a write: {D.shape} {S.shape}")
+            return None
         want = m.dense()
         try:
             dshape = tuple(int(s) for s in D.shape)
